@@ -407,7 +407,7 @@ func (h *lcH) step(a lcAct) (res string) {
 			}
 		} else {
 			want := h.ann == h.done() && h.gate == "none"
-			h.waitFor(300*time.Millisecond, func() bool { return !want || h.n.state.IsReady() })
+			h.waitFor(1500*time.Millisecond, func() bool { return !want || h.n.state.IsReady() })
 			time.Sleep(20 * time.Millisecond)
 		}
 	case "Block":
@@ -439,7 +439,8 @@ func (h *lcH) step(a lcAct) (res string) {
 			if !h.waitFor(4*time.Second, func() bool { return h.done() > before }) {
 				return "the block was not processed"
 			}
-			time.Sleep(30 * time.Millisecond) // the rest of ProcessBlock (and the in-sync transition)
+			h.n.blockLock.Lock() // ProcessBlock holds this lock until it is done (incl. the in-sync transition)
+			h.n.blockLock.Unlock()
 		}
 	case "Release":
 		if h.gate != "held" {
@@ -460,7 +461,8 @@ func (h *lcH) step(a lcAct) (res string) {
 		} else if h.conn == nil {
 			h.waitFor(6*time.Second, func() bool { return h.hasPhase("restarting") })
 		} else {
-			time.Sleep(30 * time.Millisecond)
+			h.n.blockLock.Lock()
+			h.n.blockLock.Unlock()
 		}
 	case "Tx":
 		if h.conn == nil || !h.hs {
